@@ -74,10 +74,21 @@ def run(res, b, tier, seed):
             progs.append(c13.ZOO_PRELUDE + form.replace("%s", st))
     for src in c13.builtin_near_misses(rng, 150 if quick else 4000):
         progs.append(src)
+    # string literals with characters that mean something to the shells, in every place a literal can stand (round 9: C16-A, the quote of a
+    # literal escaped before the backslash: `\\"` ends the shell string)
+    import gen_strings
+    literal_of = {}
+    for lit in ['a"b', '"', '\\', '\\"', '"\\', "a'b", "'", '$(', '`', '${', '$((', ')', '(', ';', '&&', '|', '>', '<', '#', '!', '*', '%', '^', 'a\nb"c', '\t', '"" ""', '\\\\', '%%', '^^"', '&', '\\n']:
+        q = gen_strings.go_quote(lit)
+        literal_of[len(progs)] = lit
+        progs.append('v := %s\nprint(%s, v + %s, v == %s, len(%s))\nsl := []string{%s, "k"}\nsl[1] = %s\nfunc f(p string) string {\n\treturn p + %s\n}\nprint(f(%s))\n'
+                     'write("o.txt", %s)\nwrite("p.txt", %s, true)\nprint(exists("o.txt"), read("o.txt") == %s)\n@echo(%s, "x" + %s)\nso, se, code := @printf("%%s", %s) | @cat()\n'
+                     'switch v {\ncase %s:\n\tprint(1)\n}\nfor i, ch := range %s {\n\tprint(i, ch)\n}\nif v != %s {\n\tpanic(%s)\n}\nname := input(%s)\n'
+                     % ((q,) * 20))
     # identifiers that are reserved words of the shells (known finding reserved-identifiers-not-rejected)
     reserved_progs = ["func %s() {\n\tprint(1)\n}\n%s()\n" % (w, w) for w in ("fi", "done", "then", "esac", "do", "elif")]
     progs += reserved_progs
-    cases = [pipeline.Case("p%d" % i, {"main.tsh": p.encode()}, meta=dict(src=p)) for i, p in enumerate(progs)]
+    cases = [pipeline.Case("p%d" % i, {"main.tsh": p.encode()}, meta=dict(src=p, literal=literal_of.get(i))) for i, p in enumerate(progs)]
     # multi-file programs: import graphs with aliases, diamonds, top-level code in imported files
     for i in range(60 if quick else 1200):
         gc = c09.gen_case(rng, i)
@@ -148,6 +159,12 @@ def run(res, b, tier, seed):
     real = []
     for c, target, what in fails:
         if c.meta["src"] in reserved_progs and res.known_finding("reserved-identifiers-not-rejected", what):
+            continue
+        if target == "batch" and c.meta.get("literal") is not None and ("(" in c.meta["literal"] or ")" in c.meta["literal"]) and "unbalanced" in what \
+                and res.known_finding("batch-parenthesis-in-program-call-argument", what):
+            continue
+        if target == "bash" and c.meta.get("literal") is not None and ("$" in c.meta["literal"] or "`" in c.meta["literal"]) \
+                and res.known_finding("literal-dollar-backquote-expanded", what):
             continue
         if "spellings differ only in case" in what and res.known_finding("batch-names-case-insensitive", what):
             continue
